@@ -33,6 +33,9 @@ pub enum Case {
     },
     /// two requests in a row on one chip (register-file model): the second one is judged
     PowerSeq { chip: String, first: i32, second: i32, hz: u32 },
+    /// a request, then another one during which the `fault`-th environment call (SPI transfer, BUSY wait, RF switch)
+    /// fails once, then that request again on the same driver instance: the retried request is judged
+    PowerRetry { chip: String, first: i32, second: i32, fault: usize },
     /// a sequence of front-end calls on one driver instance and one chip; after every call that names a frequency
     /// the chip must be tuned to it. ops: see `FREQ_OPS`
     FreqSeq { chip: String, ops: Vec<u8> },
@@ -174,7 +177,8 @@ pub fn eval_power_via(chip: &str, request: i32, hz: u32, via: u8, env: &Env) -> 
                 drive(r.set_tx_power_and_ramp_time(request, mp.as_ref(), true))
             } else {
                 let Some(Ok(mut l)) = drive(lora_phy::LoRa::new(r, true, env.delay())) else { return None };
-                env.take_log();
+                // (the log keeps what initialisation programmed: a driver that does not repeat an unchanged PA
+                // configuration is within the property - the chip holds what the last write of each kind set)
                 let mp = l.create_modulation_params(lora_modulation::SpreadingFactor::_7, lora_modulation::Bandwidth::_125KHz, CodingRate::_4_5, hz).ok()?;
                 if via == 1 {
                     let mut txp = l.create_tx_packet_params(8, false, true, false, &mp).ok()?;
@@ -287,14 +291,70 @@ pub fn eval_power_via(chip: &str, request: i32, hz: u32, via: u8, env: &Env) -> 
 
 /// Two power requests in a row on the same chip: what an earlier request left in the PA registers (read-modify-write
 /// sequences see it) must not change what the later one programs.
-pub fn eval_power_seq(chip: &str, first: i32, second: i32, hz: u32) -> Vec<(String, String)> {
-    use crate::chips::{Sx126xChip, Sx127xChip};
-    let env = if is126(chip) { Env::new(Box::new(Sx126xChip::new())) } else { Env::new(Box::new(Sx127xChip::new(chip.starts_with("sx1272")))) };
-    let _ = eval_power_via(chip, first, hz, 0, &env);
-    eval_power_via(chip, second, hz, 0, &env)
+pub fn eval_power_seq(chip: &str, first: i32, second: i32, _hz: u32) -> Vec<(String, String)> {
+    // one driver instance, no fault: after the second request (issued twice, which changes nothing) the chip holds what a
+    // fresh driver programs for it - whose registers the single-request sweep decodes
+    eval_power_retry(chip, first, second, 1_000_000)
+        .1
         .into_iter()
-        .map(|(sig, what)| (format!("{sig}|after-another-request"), format!("after a request for {first} dBm on the same chip: {what}")))
+        .map(|(sig, what)| (sig.replace("power-retry", "power-seq"), what))
         .collect()
+}
+
+/// (number of environment calls the faulted request would have made, verdict on the retried request)
+pub fn eval_power_retry(chip: &str, first: i32, second: i32, fault: usize) -> (usize, Vec<(String, String)>) {
+    use crate::chips::{Sx126xChip, Sx127xChip};
+    let hz = 868_100_000u32;
+    let env = if is126(chip) { Env::new(Box::new(Sx126xChip::new())) } else { Env::new(Box::new(Sx127xChip::new(chip.starts_with("sx1272")))) };
+    // ONE driver instance for the three calls (what it remembers of a failed call is the subject)
+    let r = catch(|| {
+        with_chip!(chip, &env, |r| {
+            let mp = r.create_modulation_params(lora_modulation::SpreadingFactor::_7, lora_modulation::Bandwidth::_125KHz, CodingRate::_4_5, hz).ok();
+            let a = drive(r.set_tx_power_and_ramp_time(first, mp.as_ref(), true));
+            if !matches!(a, Some(Ok(()))) {
+                return None;
+            }
+            let p0 = env.0.borrow().pos;
+            env.0.borrow_mut().fault_at = Some(p0 + fault);
+            let _ = drive(r.set_tx_power_and_ramp_time(second, mp.as_ref(), true));
+            let used = env.0.borrow().pos - p0;
+            let hit = env.0.borrow().faulted.is_some();
+            env.0.borrow_mut().fault_at = None;
+            env.take_log();
+            let c = drive(r.set_tx_power_and_ramp_time(second, mp.as_ref(), true));
+            Some((used, hit, matches!(c, Some(Ok(())))))
+        })
+    });
+    let (used, hit, ok) = match r {
+        Err(p) => return (0, vec![(format!("C17|power-retry|{chip}|panic|{}", panic_site(&p)), p)]),
+        Ok(None) => return (0, vec![]),
+        Ok(Some(x)) => x,
+    };
+    if !ok {
+        return (used, vec![]);
+    }
+    let _ = hit;
+    // what the chip holds after the retry, decoded like a single request on a fresh register file
+    let mut v = vec![];
+    let want_env = if is126(chip) { Env::new(Box::new(Sx126xChip::new())) } else { Env::new(Box::new(Sx127xChip::new(chip.starts_with("sx1272")))) };
+    let _ = eval_power_via(chip, second, hz, 0, &want_env);
+    let same = if is126(chip) {
+        let a = env.with_chip::<Sx126xChip, _>(|c| (c.pa_config, c.tx_params));
+        let b = want_env.with_chip::<Sx126xChip, _>(|c| (c.pa_config, c.tx_params));
+        if a != b { Some(format!("PA config / TX params {a:02x?}, a fresh driver programs {b:02x?}")) } else { None }
+    } else {
+        let dac = if chip.starts_with("sx1272") { 0x5A } else { 0x4D };
+        let a = env.with_chip::<Sx127xChip, _>(|c| (c.regs[0x09], c.regs[dac]));
+        let b = want_env.with_chip::<Sx127xChip, _>(|c| (c.regs[0x09], c.regs[dac]));
+        if a != b { Some(format!("RegPaConfig / RegPaDac {a:02x?}, a fresh driver programs {b:02x?}")) } else { None }
+    };
+    if let Some(d) = same {
+        v.push((
+            format!("C17|power-retry|{chip}|retried-request-leaves-other-pa-settings"),
+            format!("{chip}: {first} dBm, then {second} dBm with environment call {fault} failing, then {second} dBm again (Ok): {d}"),
+        ));
+    }
+    (used, v)
 }
 
 /// Front-end operations of the frequency sequences (f1 = 868.1 MHz, f2 = 868.5 MHz).
@@ -565,6 +625,7 @@ pub fn eval(c: &Case) -> Vec<(String, String)> {
             eval_power_via(chip, *request, *hz, *via, &env)
         }
         Case::PowerSeq { chip, first, second, hz } => eval_power_seq(chip, *first, *second, *hz),
+        Case::PowerRetry { chip, first, second, fault } => eval_power_retry(chip, *first, *second, *fault).1,
         Case::FreqSeq { chip, ops } => eval_freq_seq(chip, ops),
         Case::Timeout { chip, symbols } => eval_timeout(chip, *symbols, &env),
         Case::Adapter { chip, sf, bw, ms } => eval_adapter(chip, *sf, *bw, *ms),
@@ -673,6 +734,23 @@ pub fn run(tier: Tier, replay: Option<&str>) {
                 rec(Case::PowerSeq { chip: chip.into(), first, second, hz: 868_100_000 }, v);
                 ctx.tick(1);
                 nontrivial.fetch_add(1, Ordering::Relaxed);
+            }
+        }
+    }
+    // (b3) a request that fails at one environment call, retried on the same driver instance
+    for chip in chips {
+        for first in [0i32, 14, 22] {
+            for second in [-9i32, 0, 10, 14, 15, 17, 20, 22] {
+                if first == second {
+                    continue;
+                }
+                let (used, _) = eval_power_retry(chip, first, second, 1_000_000);
+                for fault in 0..used {
+                    let (_, v) = eval_power_retry(chip, first, second, fault);
+                    rec(Case::PowerRetry { chip: chip.into(), first, second, fault }, v);
+                    ctx.tick(1);
+                    nontrivial.fetch_add(1, Ordering::Relaxed);
+                }
             }
         }
     }
@@ -797,7 +875,7 @@ pub fn run(tier: Tier, replay: Option<&str>) {
     let coverage = json!({
         "evaluations": ctx.evals(),
         "distinct_nontrivial": nontrivial.load(Ordering::Relaxed),
-        "rule": "(a) set_channel on SX126x and SX127x for every 100 Hz of the LoRaWAN bands plus a 1 kHz stride over 137-1020 MHz (thorough: every 1 Hz of 137-1020 MHz), PLL word decoded with the datasheet formula; every sequence of four front-end calls over {prepare_for_tx / prepare_for_rx / rx_switch_channel / listen on two frequencies, start_rx, sleep warm / cold, init, tx} on one driver instance (SX1262, SX1276 chip models): after every call that names a frequency the chip is tuned to it; (b) set_tx_power_and_ramp_time for every request -128..127 and i32 extremes x {SX1261, SX1262, STM32WL LP/HP, SX1276 RFO/BOOST, SX1272 RFO/BOOST} x 3 bands, PA registers decoded with the datasheet tables, and (SX126x) requests -20..30 also through LoRa::prepare_for_tx and LoRa::continuous_wave; pairs of requests in a row on one register-file chip model (14 first x 36 second values per chip), the second one decoded; (c) every symbol timeout 0..65535 through do_rx, decoded mantissa/exponent (SX126x) or 10-bit value (SX127x); (d) every (SF,BW) x margin 0..1000 ms through LorawanRadio::setup_rx + rx_single; (e) every raw SX126x (RssiPkt, SnrPkt[, SignalRssi]) value and every SX127x (SNR, RSSI, band, chip) register value through get_rx_packet_status, and the SX127x conversion over carrier frequencies on both sides of every band edge and of the 525 MHz LF/HF line. Every tuple is a distinct input",
+        "rule": "(a) set_channel on SX126x and SX127x for every 100 Hz of the LoRaWAN bands plus a 1 kHz stride over 137-1020 MHz (thorough: every 1 Hz of 137-1020 MHz), PLL word decoded with the datasheet formula; every sequence of four front-end calls over {prepare_for_tx / prepare_for_rx / rx_switch_channel / listen on two frequencies, start_rx, sleep warm / cold, init, tx} on one driver instance (SX1262, SX1276 chip models): after every call that names a frequency the chip is tuned to it; (b) set_tx_power_and_ramp_time for every request -128..127 and i32 extremes x {SX1261, SX1262, STM32WL LP/HP, SX1276 RFO/BOOST, SX1272 RFO/BOOST} x 3 bands, PA registers decoded with the datasheet tables, and (SX126x) requests -20..30 also through LoRa::prepare_for_tx and LoRa::continuous_wave; pairs of requests in a row on one register-file chip model (14 first x 36 second values per chip), the second one decoded; a request during which one environment call (SPI transfer / BUSY wait / RF switch, every position) fails, retried on the same driver instance: the chip then holds what a fresh driver programs; (c) every symbol timeout 0..65535 through do_rx, decoded mantissa/exponent (SX126x) or 10-bit value (SX127x); (d) every (SF,BW) x margin 0..1000 ms through LorawanRadio::setup_rx + rx_single; (e) every raw SX126x (RssiPkt, SnrPkt[, SignalRssi]) value and every SX127x (SNR, RSSI, band, chip) register value through get_rx_packet_status, and the SX127x conversion over carrier frequencies on both sides of every band edge and of the 525 MHz LF/HF line. Every tuple is a distinct input",
         "samples": [
             serde_json::to_value(Case::Freq { chip: "sx1262".into(), hz: 868_100_000 }).unwrap(),
             serde_json::to_value(Case::Power { chip: "sx1276-boost".into(), request: 20, hz: 868_100_000, via: 0 }).unwrap(),
